@@ -80,6 +80,27 @@ func customLeaves(fallible bool) []customLeaf {
 			OnlyStruct: true,
 		},
 		{
+			// two extend functions with the same name in different packages (different pairs)
+			Name:      "extend_same_name_two_pkgs",
+			Shape:     shape{Src: "PFXPair", Tgt: "PFXPairT", Name: "extsamename", Decls: []string{"type PFXPair struct {\n\tL pfxone.A1\n\tR pfxtwo.A2\n}\ntype PFXPairT struct {\n\tL pfxone.B1\n\tR pfxtwo.B2\n}\n"}},
+			ConvLines: []string{"extend corpus/GRP/pfxone:Normalize", "extend corpus/GRP/pfxtwo:Normalize"},
+			Custom:    map[string]string{"A1→B1": "Normalize", "A2→B2": "Normalize"},
+			Aux: map[string]string{
+				"pfxone": "package pfxone\n\ntype A1 struct{ V int }\ntype B1 struct{ V int }\n\n" + fmt.Sprintf("func Normalize(a A1) %s { %s }\n", errRes("B1"), ret("B1{}")),
+				"pfxtwo": "package pfxtwo\n\ntype A2 struct{ V int }\ntype B2 struct{ V int }\n\n" + fmt.Sprintf("func Normalize(a A2) %s { %s }\n", errRes("B2"), ret("B2{}")),
+			},
+			Imports: []string{`pfxone "corpus/GRP/pfxone"`, `pfxtwo "corpus/GRP/pfxtwo"`},
+		},
+		{
+			// a converter-typed parameter stays the converter also when its name matches arg:context:regex
+			Name:      "extend_conv_regexmatch",
+			Shape:     shape{Src: "PFXA", Tgt: "PFXB", Name: "extconvre", Decls: []string{base + "type PFXCtx struct{ Z int }\n" + fmt.Sprintf("func PFXExt(conv CNAME, a PFXA, ctxA PFXCtx) %s { %s }", errRes("PFXB"), ret("0"))}},
+			ConvLines: []string{"arg:context:regex ^(c|ctx)", "extend PFXExt"},
+			Custom:    map[string]string{"PFXA→PFXB": "PFXExt"},
+			CtxParam:  "ctxA PFXCtx",
+			OnlyStruct: true,
+		},
+		{
 			Name:      "extend_pkg",
 			Shape:     shape{Src: "PFXA", Tgt: "PFXB", Name: "extpkg", Decls: []string{"type PFXA = pfxext.A\ntype PFXB = pfxext.B\n"}},
 			ConvLines: []string{"extend corpus/GRP/pfxext:Ext"},
@@ -241,7 +262,7 @@ func nestings(g *shapeGen, leaf shape, thorough bool) []shape {
 		out = append(out, s)
 	}
 	// the custom pair at the key position of a map (comparable leaves only)
-	if !strings.Contains(leaf.Src, "PFXIn") {
+	if !strings.Contains(leaf.Src, "PFXIn") && !strings.Contains(leaf.Src, "PFXPair") {
 		keyof := func(in shape) shape { return wrap(in, "keyof", "map["+in.Src+"]int", "map["+in.Tgt+"]int") }
 		out = append(out, keyof(leaf))
 		out = append(out, ctorByName("struct").F(g, keyof(leaf)))
@@ -276,7 +297,7 @@ func randomNestings(g *shapeGen, leaf shape, rng *rand.Rand, count int) []shape 
 	seen := map[string]bool{}
 	for tries := 0; len(out) < count && tries < count*4; tries++ {
 		s := leaf
-		if !strings.Contains(leaf.Src, "PFXIn") && rng.Intn(5) == 0 {
+		if !strings.Contains(leaf.Src, "PFXIn") && !strings.Contains(leaf.Src, "PFXPair") && rng.Intn(5) == 0 {
 			s = wrap(s, "keyof", "map["+s.Src+"]int", "map["+s.Tgt+"]int")
 		}
 		s = randomShape(g, rng, s, 2+rng.Intn(3))
@@ -525,6 +546,22 @@ func fieldFuncConvs(family string, fallible bool) []*Conv {
 		cv.Decls += fmt.Sprintf("type PFXLoc struct{ Lang string }\nfunc PFXLookup(id int, ctxL PFXLoc) %s { %s }\n", errRes("string"), ret(`""`))
 		cv.Params = "source PFXIn, ctxL PFXLoc"
 		out = append(out, cv)
+		// the same function used by two methods whose own arg:context:regex classify its parameters differently
+		sibling := "\t// goverter:arg:context:regex ^label\n\t// goverter:map First Full | PFXLabel\n\t// goverter:ignore Age Last2\n\tAPFXSibling(source PFXIn, labelKind string) " + strings.Replace(res, "PFXOut", "PFXOutB", 1) + "\n"
+		if f == "variable" {
+			sibling = strings.Replace(sibling, "APFXSibling(", "APFXSibling func(", 1)
+		}
+		cv3 := mk("tworegexes", f, []string{"arg:context:regex ^ctx", "map First Full | PFXLabel", "ignore Age Last2"},
+			map[string]*FieldSpec{
+				"Full":  {Path: []string{"First"}, Fn: "PFXLabel"},
+				"Age":   {Ignore: true},
+				"Last2": {Ignore: true},
+			})
+		cv3.Decls += "type PFXOutB struct {\n\tID int\n\tFull string\n\tAge int\n\tLast2 string\n\tFirst string\n}\n" + fmt.Sprintf("func PFXLabel(labelKind string, ctxDB string) %s { %s }\n", errRes("string"), ret(`""`))
+		cv3.Params = "source PFXIn, ctxDB string"
+		cv3.ExtraMethods = sibling
+		cv3.Solo = true
+		out = append(out, cv3)
 		// the function takes only the context
 		cv2 := mk("methodctxonly", f, []string{"arg:context:regex ^ctx", "map Full | PFXLocale", "ignore Age Last2"},
 			map[string]*FieldSpec{
